@@ -41,7 +41,7 @@ class Runner:
         n = len(case["nodes"])
         t0 = time.time()
         try:
-            rows, cap = X.run_impl(case, capture=trace)
+            rows, cap = X.run_impl(case, capture=(trace if n <= 60 else "count") if trace else False)
         except Exception as e:  # noqa: BLE001
             self.engine_s += time.time() - t0
             self.direct_fail.append((case, {"error": repr(e)[:800]}))
@@ -66,16 +66,18 @@ class Runner:
         ctx.hist("nodes", "1-4" if n <= 4 else "5-8" if n <= 8 else "9-32" if n <= 32 else "33-128" if n <= 128
                  else "129-512" if n <= 512 else ">512")
         ctx.hist("components", "1" if ncomp == 1 else "2-4" if ncomp <= 4 else "5+")
-        self.terms.append(X.coq_final_term(case, impl, full))
+        iters = X.iteration_count(cap) if trace else None
+        if iters is not None:
+            ctx.hist("iterations", iters if iters < 10 else f"{iters // 10 * 10}+")
+        self.terms.append(X.coq_final_term(case, impl, full, iters if full else None))
         self.meta.append((case, "final"))
-        if trace:
+        if trace and n <= 60:
             try:
                 tr = X.canonical_trace(case, cap)
             except Exception as e:  # noqa: BLE001
                 self.direct_fail.append((case, {"error": "captured tables could not be read: " + repr(e)[:500],
                                                 "tables": [c[0] for c in cap]}))
                 return
-            ctx.hist("iterations(lock-step cases)", len(tr[2]))
             self.terms.append(X.coq_trace_term(case, tr))
             self.meta.append((case, "trace"))
 
@@ -138,7 +140,7 @@ def generate(ctx: Ctx, R: Runner):
             idkind = rng.choice(["int", "str"])
             thr = rng.choice([None, ["p", 768], ["w", 1]])
             R.add(X.build_case(rng, fam, n, "standalone", backend, idkind, None, thr=thr, cut_rate=0.0),
-                  trace=(n <= 150))
+                  trace=True)
     if not quick:
         for fam, n in [("path_bitrev", 1024), ("path_zigzag", 1500), ("path_random", 1000), ("cliques_bridges", 3000),
                        ("forest_small", 3000), ("random_sparse", 3000), ("star", 3000), ("binary_tree", 2047)]:
